@@ -191,7 +191,7 @@ class C04(F.Check):
         if closing:
             def app(world, ws, e):
                 if e.name == 'ready':
-                    ws.close()
+                    ws.close(1000, 'goodbye')
         if case['k'] == 'timed':
             # the violating read arrives `delay` after Ready while automatic pings are enabled: housekeeping that is due at that
             # wake-up must not write anything once the violation has been received
